@@ -136,7 +136,7 @@ func (h *clientConfigSessionHandler) handlePluginMessage(p *plugin.Message) {
 		return
 	} else if bungeecord.IsBungeeCordMessage(p) {
 		return
-	} else if h.enqueuePluginMessage(h.player.connectionInFlightOrConnectedServer(), p) {
+	} else if h.enqueuePluginMessage(p) {
 		return
 	} else {
 		serverConn := h.player.connectionInFlightOrConnectedServer()
@@ -225,8 +225,12 @@ func (h *clientConfigSessionHandler) writeBrandPacketTo(serverConn *serverConnec
 // enqueuePluginMessage returns true when the message was handled by the queue
 // path, including overflow rejection. It returns false only once the backend is
 // ready for direct config plugin messages.
-func (h *clientConfigSessionHandler) enqueuePluginMessage(target *serverConnection, msg *plugin.Message) bool {
+func (h *clientConfigSessionHandler) enqueuePluginMessage(msg *plugin.Message) bool {
 	h.mu.Lock()
+	// Look the target up while holding the lock that also guards readyServer: with a
+	// target resolved before, a message could be queued right after the queue had been
+	// flushed to the (meanwhile ready) backend and would never be delivered.
+	target := h.player.connectionInFlightOrConnectedServer()
 	if target != nil && h.mu.readyServer == target {
 		h.mu.Unlock()
 		return false
